@@ -1,24 +1,17 @@
 CHECK = dict(
     level='model_checking',
-    parts=[dict(name='c17', src=['harness/c17_rand.c'], workers=16,
-                deadline=dict(quick=240, thorough=900)),
-           # the same sweep on other builds of rand.c: conditional code (__OPTIMIZE_SIZE__, __OPTIMIZE__) and
-           # compiler-dependent arithmetic show only there
-           dict(name='c17os', variant='gcc -Os', src=['harness/c17_rand.c'], workers=16, cflags=['-Os', '-DC17_NO_ORBIT'],
-                deadline=dict(quick=240, thorough=900)),
-           dict(name='c17o0', variant='gcc -O0', src=['harness/c17_rand.c'], workers=16, cflags=['-O0', '-DC17_NO_ORBIT'],
-                deadline=dict(quick=240, thorough=900)),
-           dict(name='c17clang', variant='clang -O2', cc='clang', src=['harness/c17_rand.c'], workers=16, cflags=['-DC17_NO_ORBIT'],
+    parts=[dict(name='c17', src=['harness/c17_rand.c'], lib=['rand.c'], workers=16,
                 deadline=dict(quick=240, thorough=900))],
+    variants=['c17'], variant_unsigned_char=True,
     rule='the generator is a finite state machine with one state word: every state s in 1..2^31-2 is loaded into *seedp, the '
-         'real rand31_r (rand.c) makes one step, and the returned value and the stored seed are compared with the 64-bit '
+         'real rand31_r (rand.c linked as a separate object, called through <librfn/rand.h> as a user would, its statics reset before every block and every single step) makes one step, and the returned value and the stored seed are compared with the 64-bit '
          'reference 16807*s mod (2^31-1) and with the range 1..2^31-2. states = generator states visited (each exactly once, '
          'so all are distinct), transitions = traces = rand31_r steps compared with the reference. '
          'states_where_carta_fold_exceeds_modulus counts the states that take the conditional-subtraction path. Thorough: one '
          'worker also walks the orbit of the real generator from seed 1 in lock-step with the reference (orbit_steps) and '
          'requires the first return to 1 after exactly 2^31-2 steps.',
-    bounds=dict(quick='all 2^31-2 states 1..2^31-2, one step each: the complete transition relation of the statement; repeated on three more builds of rand.c (gcc -Os, gcc -O0, clang -O2), counted separately',
-                thorough='all 2^31-2 states, one step each, plus the complete orbit from seed 1 (2^31-2 consecutive steps); the step sweep repeated on gcc -Os, gcc -O0, clang -O2 builds'),
+    bounds=dict(quick='all 2^31-2 states 1..2^31-2, one step each: the complete transition relation of the statement',
+                thorough='all 2^31-2 states, one step each, plus the complete orbit from seed 1 (2^31-2 consecutive steps)'),
     assumptions=['reference: (uint64_t)s * 16807 % 2147483647 as compiled by gcc',
                  'states 0 and 2^31-1..2^32-1 are outside the statement and are not run',
                  'full period: in the quick tier it follows from the exhaustive step check by number theory (16807 is a '
